@@ -71,13 +71,16 @@ def reserved_shapes(state, receiver):
     absolute = ["/metador_container", "/metador_container/links", "/metador_container/version", "/g/metador_meta_", "/metador_meta_d",
                 "/g/metador_x", "/metador_x/y", "/g/h/metador_meta_/x"]
     out = [("rel:" + p, p) for p in rel] + [("abs:" + p, p) for p in absolute]
+    # the same paths as bytes (h5py takes bytes paths; refusing them outright is a rejection, too)
+    out += [("bytes:" + p, p.encode()) for p in (rel[0], rel[1], rel[3], rel[6], absolute[0], absolute[1], absolute[3])]
     return out
 
 
 def calls(mc, recv, path, shape):
     """All ways of handing `path` to the receiver. Each entry: (name, thunk, nontrivial?)"""
     g = recv
-    deep = "/" in path.strip("/") or path.startswith("/")
+    spath = path.decode() if isinstance(path, bytes) else path
+    deep = "/" in spath.strip("/") or spath.startswith("/")
     other = mc["g/h"]
     out = [
         ("__getitem__", lambda: g[path], deep), ("get", lambda: g.get(path), deep), ("get_default", lambda: g.get(path, None), deep),
@@ -91,6 +94,8 @@ def calls(mc, recv, path, shape):
         ("copy_dst_without_meta", lambda: g.copy("/d", path, without_meta=True), True),
         ("copy_src_nodeobj_dst", lambda: g.copy(mc["d"], path), True),
     ]
+    if isinstance(path, bytes):
+        return out
     last = path.strip("/").split("/")[-1]
     if any(s.startswith("metador_") for s in [last]):
         out.append(("copy_name_kw", lambda: g.copy("/d", other, name=last), True))
@@ -120,7 +125,7 @@ def run_matrix(driver, state, rec):
                 recv = mc if receiver == "root" else mc["g"]
                 before = raw_snapshot(mc.__wrapped__)
                 for cname, thunk, nt in calls(mc, recv, path, shape):
-                    case = dict(kind="cell", driver=driver, state=state, receiver=receiver, path=path, call=cname)
+                    case = dict(kind="cell", driver=driver, state=state, receiver=receiver, path=path if isinstance(path, str) else repr(path), call=cname)
                     covered.add(cname)
                     try:
                         ret = thunk()
